@@ -5,7 +5,7 @@ import Poulpy.Model.Core.Ep
 Model driver for the `ep` command (external products, CMux) — the counterpart of
 `harness/src/cmd_ep.rs`.
 
-Request:  `id ep op=<glwe|cmux|cmux_assign|cmux_assign_neg|mat> big=<0|1> n=N bo=<res base2k> so=<res size>
+Request:  `id ep op=<glwe|cmux|cmux_assign|cmux_assign_neg|cswap|mat> [gglwe=1] big=<0|1> n=N bo=<res base2k> so=<res size>
            bi=<a base2k> gp=<base2k>,<rank>,<dsize>,<dnum>,<size> g=<ints> a=<C>x<S>:<ints> [f=<C>x<S>:<ints>]
            [rows=<rowsRes>,<rowsA>,<colsIn>] [r0=<C>x<S>:<ints> t0=<C>x<S>:<ints>]`
 Answer:   `id <C>x<S>:<ints>` (cells separated by `;` for `op=mat`), `panic:<class>` or `err:<kind>`.
@@ -78,12 +78,20 @@ def handle (ts : List String) : String :=
       match (kv ts "f").bind (parseVec n) with
       | some a => showOutcome (cmuxAssignNeg big n bo res a g r0 t0)
       | none => "err:parse-f"
+    | "cswap", some ra =>
+      match (kv ts "f").bind (parseVec n) with
+      | some rb =>
+        match cswap big n bo ra rb g r0 t0 with
+        | .ok (x, y) => showVec x ++ ";" ++ showVec y
+        | .err e => "err:" ++ e
+        | .panic p => "panic:" ++ p
+      | none => "err:parse-f"
     | "mat", _ =>
       match kvNats ts "rows", (kv ts "am").map (fun s => s.splitOn ";") with
       | [rowsRes, rowsA, colsIn], some cellsS =>
         match cellsS.mapM (parseVec n) with
         | some am =>
-          match matExternalProduct big n bo so rowsRes rowsA colsIn am bi g with
+          match matExternalProduct big n bo so rowsRes rowsA colsIn am bi g (kvNat ts "gglwe" == 1) with
           | .ok cs => ";".intercalate (cs.map showVec)
           | .err e => "err:" ++ e
           | .panic p => "panic:" ++ p
